@@ -16,7 +16,7 @@ RULE = ('exhaustive: every (gender, event) row of the scoring table x every inte
 RULE = RULE + '; every whole target also as a float (same answer)'
 ASSUMPTIONS = ['athlon_score itself is checked against the exact formula by C01; here it is used as '
                'the forward function of the round trip, as the property states']
-RULE = RULE + '; unknown pairs also through the forward function at ages None / 20 / 50, and every kind of call as the first one after import'
+RULE = RULE + '; seven targets per row also in a child interpreter whose athlib is a zip archive of the package' + '; unknown pairs also through the forward function at ages None / 20 / 50, and every kind of call as the first one after import'
 
 UNKNOWN = [('M', 'XYZ'), ('X', '100'), ('F', '110H'), ('M', '100H'), ('', ''), ('m', 'hj '), ('M', 'NA'), ('?', '100'),
            ('M', '100-Y'), ('M', 'M-100'), ('U-20', '100'), ('F', 'PEN-I'), ('M-', '100'), ('M', '-100'), ('F', '600'), ('M', '%s'),
@@ -47,6 +47,8 @@ reset_state()        # snapshot at import, before anything is computed
 
 
 def examine(case):
+    if case.get('kind') == 'zip':
+        return examine_zip(case)
     if case.get('cold'):
         # the call is the FIRST one made after import: lazily built tables do not exist yet
         reset_state()
@@ -110,6 +112,56 @@ def examine(case):
     return out
 
 
+ZIP_CHILD = r"""
+import json, sys
+import athlib
+assert '.zip' in athlib.__file__, athlib.__file__
+out = []
+for g, e, s in json.loads(sys.stdin.read()):
+    try:
+        p = athlib.athlon_performance_needed(g, e, s)
+        out.append([p, athlib.athlon_score(g, e, p)])
+    except Exception as exc:
+        out.append(['raises', type(exc).__name__])
+print('RESULT' + json.dumps(out))
+"""
+
+
+def zipped(triples):
+    """The package deployed as a zip archive (zipapp / zipimport / a bundler): needed mark and its score for every triple,
+    computed in a child interpreter whose only athlib is the archive.  (Scoring without an age reads no data file.)"""
+    import json, os, subprocess, sys, tempfile, zipfile
+    from vlib.harness import REPO
+    src = os.path.join(REPO, 'athlib')
+    with tempfile.TemporaryDirectory() as tmp:
+        zp = os.path.join(tmp, 'bundle.zip')
+        with zipfile.ZipFile(zp, 'w') as z:
+            for d, ds, fs in os.walk(src):
+                ds[:] = sorted(x for x in ds if x != '__pycache__')
+                for f in sorted(fs):
+                    full = os.path.join(d, f)
+                    z.write(full, os.path.join('athlib', os.path.relpath(full, src)))
+        env = {k: v for k, v in os.environ.items() if k != 'VERIF_AMBIENT'}
+        env['PYTHONPATH'] = zp
+        r = subprocess.run([sys.executable, '-c', ZIP_CHILD], input=json.dumps(triples), env=env, cwd=tmp,
+                           stdout=subprocess.PIPE, stderr=subprocess.PIPE, text=True)
+    for line in r.stdout.splitlines():
+        if line.startswith('RESULT'):
+            return json.loads(line[6:])
+    return [['child-failed', r.stderr[-300:]]] * len(triples)
+
+
+def examine_zip(case):
+    g, e, s = case['gender'], case['event'], case['target']
+    p = call(athlib.athlon_performance_needed, g, e, s)
+    want = [p[1], call(athlib.athlon_score, g, e, p[1])[1]] if p[0] == 'ret' else None
+    got = zipped([[g, e, s]])[0]
+    if want is not None and got != want:
+        return [V('achieves-target', ['zip-archive-differs', str(got[0]) if got[0] in ('raises', 'child-failed') else 'value'],
+                  case, got, want)]
+    return []
+
+
 def run(ctx):
     tab = mod('athlon_score')._scoring_table
     rows = [(o['gender'], o['event_code']) for o in tab]
@@ -158,6 +210,16 @@ def run(ctx):
             ctx.count()
             ctx.label('first-call-after-import')
             ctx.violations(examine(case))
+    # the same round trip in an interpreter whose athlib is a zip archive of the package: the same marks, the same scores
+    triples = [[g, e, s_] for g, e in rows for s_ in (-10, 0, 1, 437, 700, 999, 1500)]
+    got = zipped(triples)
+    for t, gt in zip(triples, got):
+        p_ = call(athlib.athlon_performance_needed, *t)
+        want = [p_[1], call(athlib.athlon_score, t[0], t[1], p_[1])[1]] if p_[0] == 'ret' else None
+        ctx.count()
+        ctx.label('package-as-zip-archive')
+        if want is not None and gt != want:
+            ctx.violations(examine_zip({'kind': 'zip', 'gender': t[0], 'event': t[1], 'target': t[2]}))
     reset_state()
     ctx.extra['rows'] = len(rows)
     ctx.exhaustive = True
